@@ -6,6 +6,7 @@ mod civil;
 mod common;
 mod cron;
 mod tz;
+mod text;
 mod gens;
 mod arith;
 mod c01;
@@ -24,6 +25,9 @@ fn run_input(inp: &Input) -> Obs {
         return o;
     }
     if let Some(o) = tz::run(inp) {
+        return o;
+    }
+    if let Some(o) = text::run(inp) {
         return o;
     }
     panic!("unknown op {}", inp.op);
@@ -51,6 +55,11 @@ fn main() {
                 "C08" => gens::gen_c08(&mut g, tier),
                 "C09" => gens::gen_c09(&mut g, tier),
                 "C10" => gens::gen_c10(&mut g, tier),
+                "C11" => text::gen_c11(&mut g, tier),
+                "C12" => text::gen_c12(&mut g, tier),
+                "C13" => text::gen_c13(&mut g, tier),
+                "C14" => text::gen_c14(&mut g, tier),
+                "C20" => text::gen_c20(&mut g, tier),
                 "C15" => gens::gen_c15(&mut g, tier),
                 "C16" => cron::gen_c16(&mut g, tier),
                 "C17" => cron::gen_c17(&mut g, tier),
